@@ -27,7 +27,7 @@ type profile struct {
 	advPartial            int // chance (of 10) to advance less than to the next timer
 }
 
-var durChoices = []int{1, 2, 3, 4, 4, 5, 8, 8, 12, 20, 20, 60, 3600, 7200}
+var durChoices = []int{1, 2, 3, 4, 4, 5, 8, 8, 10, 10, 12, 20, 20, 30, 60, 3600, 7200}
 
 func pickProfile(r *kit.Rng) profile {
 	p := profile{np: 2 + r.Intn(2), keys: []uint32{1}, steps: 40 + r.Intn(80),
@@ -66,26 +66,26 @@ func pickProfile(r *kit.Rng) profile {
 		// retry, then a storage that fails for good, watched in fine clock steps past lastSuccess + D/2
 		p.name = "late-retry"
 		p.np, p.keys = 2, []uint32{1}
-		p.durs = []int{kit.Pick(r, []int{12, 20, 20, 40, 40, 60})}
+		p.durs = []int{kit.Pick(r, []int{10, 12, 20, 20, 30, 40, 40, 60})}
 	case 11:
 		// the leader calls AcquireLeadership again for the key it leads and the insert fails with a
 		// storage error (before or after its effect); then another participant tries to acquire
 		p.name = "reacquire-insert-error"
 		p.np, p.keys = 2, []uint32{1}
-		p.durs = []int{kit.Pick(r, []int{4, 8, 20, 40})}
+		p.durs = []int{kit.Pick(r, []int{2, 4, 5, 8, 10, 20, 30, 40})}
 	case 12:
 		// a storage call of the leader (a renewal's CompareAndSwap, or the acquiring insert's return)
 		// is held while the clock moves on, up to beyond D/2 and beyond the record's expiry (finding U3)
 		p.name = "slow-call"
 		p.np, p.keys = 2, []uint32{1}
-		p.durs = []int{kit.Pick(r, []int{4, 8, 20, 40})}
+		p.durs = []int{kit.Pick(r, []int{4, 5, 8, 10, 20, 40})}
 	case 13:
 		// cleanup / release starts while a renewal's CompareAndSwap is in flight, and that renewal then
 		// reports a mismatch (the record went first) or an error up to the deadline: its goroutine
 		// releases by itself while the API call waits for it
 		p.name = "cleanup-during-renewal"
 		p.np, p.keys = 2, []uint32{1}
-		p.durs = []int{kit.Pick(r, []int{4, 8, 20})}
+		p.durs = []int{kit.Pick(r, []int{3, 4, 5, 8, 10, 20})}
 	}
 	if p.durs == nil {
 		n := 1 + r.Intn(2)
@@ -328,6 +328,22 @@ func (p *profile) driveSlowCall(r *kit.Rng, e *exec, sc *scenario) {
 	for n := r.Intn(2); n > 0; n-- {
 		do(choice{C: "adv"})
 		finish("g0")
+	}
+	if r.Chance(1, 3) {
+		// late timer delivery instead of a slow call: one jump of the clock past the tick, then
+		// failing renewals in one-second steps and a rival that tries at every step
+		do(choice{C: "advx", Ns: total, Ov: true})
+		for n := 0; n < 3*d && e.err == nil && e.lis[0].ctx.Err() == nil; n++ {
+			if !do(choice{C: "eff", T: "g0", O: "errb"}) {
+				do(choice{C: "adv", Ns: kit.Pick(r, []int64{1e9, 500e6})})
+				if do(choice{C: "acq", P: 1, K: 1, V: 11, D: d}) {
+					finish("a1")
+				}
+				continue
+			}
+			do(choice{C: "ret", T: "g0"})
+		}
+		return
 	}
 	do(choice{C: "adv"}) // the tick: the renewal's CompareAndSwap is at its entry
 	if r.Bool() {
